@@ -274,7 +274,9 @@ class Scheduler:
         return tid
 
     async def cancel_task(self, tid):
-        if self.task_states[tid] in (LocalStatus.SUBMITTED, LocalStatus.RUNNING):
+        # An id this pool does not know (e.g. of a task submitted before the
+        # workers were restarted) has nothing to cancel.
+        if self.task_states.get(tid) in (LocalStatus.SUBMITTED, LocalStatus.RUNNING):
             worker_task = self.tasks[tid]
             worker_task.cancel()
             self.task_states[tid] = LocalStatus.CANCELLED
